@@ -57,8 +57,9 @@ def main():
     ran.append("patched crate: cargo test --offline -> " + out1.strip())
     if demo:
         shutil.copyfile(demo, os.path.join(mut, "tests", "demo.rs"))
-        rc2, out2 = sh("cargo test --offline --features borsh --test demo 2>&1 | tail -8", cwd=mut)
-        demo_fails = "test result: FAILED" in out2 or "panicked" in out2
+        rc2, out2 = sh("bash -o pipefail -c 'cargo test --offline --features borsh --test demo 2>&1 | tail -8'", cwd=mut)
+        # a stack overflow / abort prints no "test result" line: any non-zero exit of the test binary is a failing demo
+        demo_fails = "test result: FAILED" in out2 or "panicked" in out2 or (rc2 != 0 and "could not compile" not in out2)
         if not demo_fails and not safe:
             # a change that only shows without debug assertions (the profile users ship)
             rc3, out3 = sh("cargo test --offline --release --features borsh --test demo 2>&1 | tail -8", cwd=mut)
